@@ -119,6 +119,9 @@ def limit_payload(rng, k, layout):
         hdr = [b'Subject: s', b'Delivered-To: nobody@elsewhere.example'] + rec + known
     elif layout == 'folded':
         hdr = known[:2] + [x for r in rec for x in (r, b'\tfolded continuation')] + known[2:]
+    elif layout == 'delivered-to-rcpt':
+        # the other loop test of smtp_data(): a Delivered-To: line naming a recipient
+        hdr = known + rec + [rng.choice([b'Delivered-To: alice@example.org', b'DELIVERED-TO: Alice@Example.Org', b'Delivered-To: alice@example.org  '])]
     else:   # 'none-known'
         hdr = [b'Subject: s'] + rec
     body = [b'', b'Received: in the body', b'body'] if rng.random() < 0.8 else []
@@ -165,7 +168,7 @@ def limit_specs(ctx):
                 'txs': [{'mail': HX(b'MAIL FROM:<s@remote.example>'), 'rcpts': [HX(rcpt)], 'payload': {'hex': HX(payload)},
                          'cuts': None, 'greet': None, 'tag': tag}], 'post': [HX(b'NOOP'), HX(b'QUIT')]}
     modes = [('plain', {}), ('strict', {'strict_all': 1}), ('submission', {'port': '587', 'relay': 'listed'})]
-    layouts = ['first', 'after', 'between', 'after-other', 'folded', 'none-known']
+    layouts = ['first', 'after', 'between', 'after-other', 'folded', 'none-known', 'delivered-to-rcpt']
     for mname, mw in modes:
         for k in ([99, 100, 101, 102] if quick else range(97, 106)):
             for lay in layouts:
@@ -210,7 +213,8 @@ def prop_on_transcripts(ctx, specs, results):
             fails.append((case, obs, 'fails size-limit: not refused with 552'))
         if (not db or stored <= db) and final == '552':
             fails.append((case, obs, 'fails size-limit: refused for size within the limit'))
-        if nrec <= 100 and plain and (not db or stored <= db) and final != '250':
+        deliv = any(l[:13].lower() == b'delivered-to:' and b'alice@example.org' in l.lower() for l in hdr)
+        if nrec <= 100 and plain and not deliv and (not db or stored <= db) and final != '250':
             fails.append((case, obs, 'fails limit-not-reached-but-refused'))
         ctx.count('transcript-clauses')
     vlib.handle_results(ctx, 'data-limits-transcripts', 'property clauses on the real server transcript', [], fails)
